@@ -203,6 +203,139 @@ def unfold_scenario(kind, use_bias):
   return scenario
 
 
+FOLD_GRAPH_STUB = """
+class EdgeView(object):
+  def __init__(self, g):
+    self.g = g
+  def __call__(self, n):
+    return [(n, v) for v in self.g.succ[n]]
+  def __getitem__(self, uv):
+    return self.g.adj[uv[0]][uv[1]]
+
+class DiGraph(object):
+  # contract of networkx.DiGraph as far as convert_to_folded_model and qgraph.GraphRemoveNode use it
+  def __init__(self):
+    self.nodes = {}
+    self.adj = {}
+    self.pred = {}
+    self.succ = {}
+    self.order = []
+    self.edges = EdgeView(self)
+  def add_node(self, n, **attrs):
+    self.nodes[n] = attrs
+    self.adj[n] = {}
+    self.pred[n] = []
+    self.succ[n] = []
+    self.order.append(n)
+  def add_edge(self, u, v, **attrs):
+    if v not in self.adj[u]:
+      self.succ[u].append(v)
+      self.pred[v].append(u)
+    self.adj[u][v] = attrs
+  def add_edges_from(self, triples):
+    for (u, v, attrs) in triples:
+      self.add_edge(u, v, **dict(attrs))
+  def remove_node(self, n):
+    for u in list(self.pred[n]):
+      self.succ[u].remove(n)
+      del self.adj[u][n]
+    for w in list(self.succ[n]):
+      self.pred[w].remove(n)
+    del self.nodes[n]
+    del self.adj[n]
+    del self.pred[n]
+    del self.succ[n]
+    self.order.remove(n)
+  def predecessors(self, n):
+    return iter(list(self.pred[n]))
+  def successors(self, n):
+    return iter(list(self.succ[n]))
+  def __getitem__(self, u):
+    return self.adj[u]
+  def topological_order(self):
+    return list(self.order)
+"""
+
+
+def fold_scenario(topology):
+  """convert_to_folded_model on stub graphs (qgraph's graph construction replaced by the graph, networkx by a stub
+  contract, layers by callables that record what they are applied to): a Conv2D / DepthwiseConv2D is folded exactly when
+  a BatchNormalization is its ONLY consumer; the rebuilt model applies every remaining layer to the outputs of its
+  predecessors, a folded convolution taking the place of its batch normalisation.
+  topology: 'chain' | 'residual' (conv feeds bn and a skip branch) | 'two' (conv-bn-dwconv-bn) | 'dense_bn'"""
+  def scenario(ip):
+    s = Scen()
+    gm = ip.load_source("c15_fold_graph_stub", FOLD_GRAPH_STUB)
+    g = ip.call(gm.env.vars["DiGraph"], [], {})
+    add_node, add_edge = ip.getattr(g, "add_node"), ip.getattr(g, "add_edge")
+    applied = {}
+
+    def tensor(label):
+      t = Obj(ExtClass("KerasTensor"), {"label": label}, label=label)
+      ref = Obj(ExtClass("Ref"), {"deref": Builtin("deref", lambda ip_, t=t: t)})
+      t.attrs["ref"] = Builtin("ref", lambda ip_, ref=ref: ref)
+      return t
+    layers = {}
+
+    def node(i, cls, name):
+      if cls is None:
+        lay = None
+      else:
+        lay = Obj(ExtClass(cls), {"name": name}, label=name)
+
+        def call(ip_, inputs, name=name):
+          ins = [x.attrs["label"] for x in inputs] if isinstance(inputs, list) else [inputs.attrs["label"]]
+          applied[name] = ins
+          return tensor(name + ":out")
+        lay.attrs["__call__"] = lambda ip_, obj_, args_, kwargs_, call=call: call(ip_, *args_)
+      layers[i] = lay
+      ip.call(add_node, [i], {"layer": [lay], "type": [cls], "out_quantizer": None})
+    tin = tensor("input")
+    edge = lambda u, v: ip.call(add_edge, [u, v], {"shape": (None, 4, 4, 3), "tensor": ip.call(ip.getattr(tin, "ref"), [], {}),
+                                                   "quantizer": None})
+    node(-1, None, None)
+    if topology == "chain":
+      node(0, "Conv2D", "c1"); node(1, "BatchNormalization", "b1"); node(2, "Activation", "a1")
+      es, fold = [(-1, 0), (0, 1), (1, 2), (2, -2)], ["c1"]
+      flow = {"c1": ["input"], "a1": ["c1:out"]}
+    elif topology == "residual":
+      node(0, "Conv2D", "c1"); node(1, "BatchNormalization", "b1"); node(2, "Conv2D", "c2"); node(3, "Add", "add")
+      es, fold = [(-1, 0), (0, 1), (0, 2), (1, 3), (2, 3), (3, -2)], []
+      flow = {"c1": ["input"], "b1": ["c1:out"], "c2": ["c1:out"], "add": ["b1:out", "c2:out"]}
+    elif topology == "two":
+      node(0, "Conv2D", "c1"); node(1, "BatchNormalization", "b1"); node(2, "DepthwiseConv2D", "d2")
+      node(3, "BatchNormalization", "b2"); node(4, "Activation", "a1")
+      es, fold = [(-1, 0), (0, 1), (1, 2), (2, 3), (3, 4), (4, -2)], ["c1", "d2"]
+      flow = {"c1": ["input"], "d2": ["c1:out"], "a1": ["d2:out"]}
+    else:
+      node(0, "Dense", "d1"); node(1, "BatchNormalization", "b1")
+      es, fold = [(-1, 0), (0, 1), (1, -2)], []
+      flow = {"d1": ["input"], "b1": ["d1:out"]}
+    node(-2, None, None)
+    for u, v in es:
+      edge(u, v)
+    model = Obj(ExtClass("Model"), {"layers": [l for l in layers.values() if l is not None], "inputs": [tin],
+                                    "get_config": Builtin("get_config", lambda ip_: {"layers": []})})
+    ip.overrides["qkeras.utils::clone_model"] = lambda ip_, fv, a, k: a[0]
+    ip.overrides["qkeras.qtools.qgraph::GenerateGraphFromModel"] = lambda ip_, fv, a, k: (g, None)
+    for fn in ("GraphAddSingleSourceSingleSink", "GraphRemoveNodeWithNodeType", "GraphPropagateActivationsToEdges"):
+      ip.overrides["qkeras.qtools.qgraph::" + fn] = lambda ip_, fv, a, k: None
+    r = run_call(ip, ip.find("qkeras/utils.py::convert_to_folded_model"), [model])
+    s.claim("no_raise", r[0] == "return")
+    if r[0] != "return":
+      s.info["raised"] = str(r[1])
+      return s
+    new_model, folded = r[1]
+    if list(folded) != fold:
+      s.info["raised"] = "folded %r, expected %r" % (list(folded), fold)
+    s.claim("folds_exactly_sole_consumer_bn", list(folded) == fold)
+    if applied != flow:
+      s.info["raised"] = "rebuilt dataflow %r, expected %r" % (applied, flow)
+    s.claim("rebuilt_dataflow", applied == flow)
+    return s
+  return scenario
+
+
 def cases(tier):
   out = []
   layers = [("qkeras/qconv2d_batchnorm.py::QConv2DBatchnorm", "kernel", False),
@@ -219,6 +352,11 @@ def cases(tier):
       for sc in (True, False):
         out.append(Case(PROP, target + ".get_folded_weights", "bias%d_scale%d" % (ub, sc),
                         weights_scenario(target, kattr, ub, sc, dw), replay_kind=None, assumptions=ASSUME, term_mode=True))
+  for topo in ("chain", "residual", "two", "dense_bn"):
+    out.append(Case(PROP, "qkeras/utils.py::convert_to_folded_model", topo, fold_scenario(topo), replay_kind=None,
+                    assumptions=ASSUME + ["qgraph.GenerateGraphFromModel and the graph clean-up passes replaced by the "
+                                          "resulting graph; networkx.DiGraph as a stub contract; layers are callables "
+                                          "recording their inputs; tf.keras Model(inputs, outputs) as a record"]))
   for kind in ("conv", "depthwise"):
     for ub in (True, False):
       out.append(Case(PROP, "qkeras/bn_folding_utils.py::unfold_model", "%s_bias%d" % (kind, ub), unfold_scenario(kind, ub),
